@@ -240,6 +240,16 @@ def write_smt2(ob: Obligation, outdir: str, extra_fuel=0) -> str:
 _no_cvc5: set = set()
 
 
+_CVC5_KEYWORDS = ("include",)  # symbols that cvc5's parser takes for commands: written as quoted symbols (same SMT-LIB symbol)
+_SYM = r"\w|!.@#$%^&*~+\-/<>=?"
+
+
+def cvc5_text(txt: str) -> str:
+    for kw in _CVC5_KEYWORDS:
+        txt = re.sub(rf"(?<![{_SYM}]){kw}(?![{_SYM}])", f"|{kw}|", txt)
+    return ("" if "(set-logic" in txt else "(set-logic ALL)\n") + txt
+
+
 def run_solver(solver: str, path: str, timeout: float):
     cmd = list(SOLVERS[solver])
     if solver.startswith("z3"):
@@ -249,11 +259,10 @@ def run_solver(solver: str, path: str, timeout: float):
         # cvc5 wants an explicit logic
         with open(path) as f:
             txt = f.read()
-        if "(set-logic" not in txt:
-            p2 = path[:-5] + ".cvc5.smt2"
-            with open(p2, "w") as f:
-                f.write("(set-logic ALL)\n" + txt)
-            cmd[-1] = p2
+        p2 = path[:-5] + ".cvc5.smt2"
+        with open(p2, "w") as f:
+            f.write(cvc5_text(txt))
+        cmd[-1] = p2
     t0 = time.time()
     try:
         r = subprocess.run(cmd, capture_output=True, text=True, timeout=timeout + 10)
@@ -287,7 +296,7 @@ def _solver_cmd(solver: str, path: str, timeout: float):
     with open(path) as f:
         txt = f.read()
     with open(p2, "w") as f:
-        f.write(("" if "(set-logic" in txt else "(set-logic ALL)\n") + txt)
+        f.write(cvc5_text(txt))
     return cmd + [f"--tlimit={int(timeout * 1000)}", p2]
 
 
